@@ -173,8 +173,16 @@ func (c *netFD) connect(ctx context.Context, la, ra syscall.Sockaddr) (rsa sysca
 var (
 	errMissingAddress = errors.New("missing address")
 	errCanceled       = errors.New("operation was canceled")
-	errIOTimeout      = errors.New("i/o timeout")
+	errIOTimeout      = error(timeoutError{})
 )
+
+// timeoutError is what a dial that ran into its deadline reports: callers (and
+// net.OpError, which wraps it) find out through Timeout(), as with package net.
+type timeoutError struct{}
+
+func (timeoutError) Error() string   { return "i/o timeout" }
+func (timeoutError) Timeout() bool   { return true }
+func (timeoutError) Temporary() bool { return true }
 
 // mapErr maps from the context errors to the historical internal net
 // error values.
